@@ -405,6 +405,33 @@ structure Trans where
   bc : Nat
   deriving DecidableEq, Repr
 
+/-- constructor arguments of one `Vector(...)` call -/
+structure Spec (α : Type) where
+  names : List String
+  defaults : Option (List (XR α))
+  mins : Option (List (XR α))
+  maxs : Option (List (XR α))
+  checkBounds : Bool
+  checkHit : Bool
+  acceptNan : Bool
+
+/-- one more `Vector(...)` constructed next to the live ones -/
+def World.add [OfNat α 0] (eps : α) (w : World α) (sp : Spec α) : Except Err (World α) :=
+  match C12.mk eps w.store sp.names sp.defaults sp.mins sp.maxs sp.checkBounds sp.checkHit sp.acceptNan with
+  | .error e => .error e
+  | .ok (s, v) => .ok ⟨s, w.vecs ++ [v]⟩
+
+/-- the world of a freshly constructed transform: parameter vector (0), constant vector (1) and, for the
+classes that own an inner `BoxCox2`, its parameter vector (2) -/
+def tinit [OfNat α 0] (eps : α) (params constants : Spec α) (bc : Option (Spec α)) : Except Err (World α) :=
+  match World.add eps ⟨Store.empty, []⟩ params with
+  | .error e => .error e
+  | .ok w1 => match World.add eps w1 constants with
+    | .error e => .error e
+    | .ok w2 => match bc with
+      | none => .ok w2
+      | some b => World.add eps w2 b
+
 inductive TOp (α : Type) where
   /-- read-only uses -/
   | forward | backward | jacobian | sample | logprior | print
